@@ -4,6 +4,41 @@ import os
 import vlib, hist
 
 ID = "C09"
+MANIFEST = {
+    "text": "Theorems (Coq; every buffer size / every compartment count n = 0,1,2,..., with or without callback; every number of "
+            "callers of every kind; every interleaving of the LTSs Conc/Eventual.v and Conc/Future.v whose labels are the ABT_VERIF "
+            "hook records + the harness' begin/end/value records). Eventual: at most one set between two resets stores ready (ready "
+            "iff exactly one did); that set copies its value and marks ready in one critical section before any waiter is woken; a "
+            "set that finds it ready can only release and return ABT_ERR_EVENTUAL, changing nothing; at the very step that lets a "
+            "waiter go the eventual is ready, and the word the caller then reads is the buffer content that set left (until the next "
+            "reset); test reports `ready` as it is under the lock, i.e. never before a set has stored it and left its critical "
+            "section; a queued caller is in the wait list and then the eventual is unready or the setter is still broadcasting; "
+            "lock free and ready implies empty wait list; the broadcast can always take its next step. Future: counter = number of "
+            "successful sets since creation/reset <= n and the array prefix holds their values in order, so counter = n exactly after "
+            "the n-th successful set; a set finding counter >= n (every set when n = 0) returns ABT_ERR_FUTURE and changes nothing, a "
+            "set finding counter < n cannot fail; callback count <= 1 and = 1 iff (counter = n, n > 0, callback registered) or the "
+            "callback is running; at the callback step the counter is still n-1, no waiter of this generation has been let go, and "
+            "the array equals the values of all n successful sets; every waiter let go and every `ready` verdict of test implies "
+            "counter = n (hence callback done); no lost waiter as for eventuals. Tie: real multi-threaded executions (ULTs on 1-4 "
+            "streams, external pthreads, tasklets; valid, late and oversized sets; waits, tests; resets at rendezvous points; n = "
+            "0..8) are recorded by the hooks as a totally ordered history and replayed through the extracted step functions (every "
+            "record must be enabled, every value - counter stored/loaded, value read, array seen by the callback, return code - "
+            "must equal the model's); model-independent monitors on the harness' own records check values read = value set, error "
+            "codes of late/oversized sets and tasklet waits, callback count/position/arguments, wait/test verdicts vs. set "
+            "begin/end order, watchdog => stuck; extra runs inject a delay after every WAKE / CALLBACK / DATA / REL record. Fair "
+            "termination is not claimed (can-take-next-step for the broadcast only).",
+    "note": "Trusted: Coq kernel; extraction; the LTS abstraction (actions inside the object's spinlock are steps of the lock holder, "
+            "SC memory; acquire/release annotations not checked); hook placement and the trace lock making the recorded order the "
+            "real order. The memcpy into the eventual's buffer and `array[counter] = value` have no hook record: in the model they "
+            "belong to the next recorded step of the same critical section; a misplaced copy is caught only through the values "
+            "callers/callback read (directed-delay runs make that likely, not certain). Values are one machine word, sizes in "
+            "words (nbytes not a multiple of 4, negative nbytes, NULL handles are not exercised). Client contract assumed as "
+            "documented: reset only while no waiter is blocked; create/free are outside the model. Blocking itself (futex, context "
+            "switch) is abstracted to pcs UQ/US/EW/ES (C02/C11). Ghost fields (generation, set values, callback count, generation "
+            "stamp of returned waits) are defined by the *_ghost_meaning theorems.",
+    "technique": "Coq proof of inductive invariants over two parametric LTSs + history conformance (recorded hook events replayed by the "
+                 "extracted step functions) + model-independent monitors",
+}
 
 KINDS = "UUUUEET"
 
@@ -69,7 +104,8 @@ def gen_scenario(rng, big=False):
                 (pre if rng.random() < 0.5 else suf)[t].append("et%d" % i)
             if will:
                 for _ in range(rng.choice([0, 1, 2, 3, 4])):
-                    suf[rng.choice(actors)].append("ew%d" % i)
+                    # sometimes test right after the wait returned: must say ready
+                    suf[rng.choice(actors)].append("ew%d" % i + (",et%d" % i if rng.random() < 0.3 else ""))
             else:
                 for t in part:
                     if kinds[t] == "T" and rng.random() < 0.3:
@@ -87,7 +123,7 @@ def gen_scenario(rng, big=False):
                     t = rng.choice(actors)
                     (pre if rng.random() < 0.5 else suf)[t].append("fs%d:%d" % (i, fresh()))
                 for _ in range(rng.choice([0, 1, 2, 3, 4])):
-                    suf[rng.choice(actors)].append("fw%d" % i)
+                    suf[rng.choice(actors)].append("fw%d" % i + (",ft%d" % i if rng.random() < 0.3 else ""))
                 f_count[i] = n
             else:
                 k = rng.randint(0, need - 1)
@@ -108,7 +144,7 @@ def gen_scenario(rng, big=False):
                 while x.startswith("+"):
                     out.append(yld)
                     x = x[1:]
-                out.append(x)
+                out += x.split(",")
                 if rng.random() < 0.25:
                     out.append(yld)
             return out
@@ -134,7 +170,7 @@ def gen_scenario(rng, big=False):
                         coord.append("fr%d" % i)
                         f_count[i] = 0
                 coord.append("R%d" % r)
-    lines = ["SEED %d" % rng.randint(1, 10**9), "NES %d" % nes, "WATCHDOG 20"]
+    lines = ["SEED %d" % rng.randint(1, 10**9), "NES %d" % nes, "WATCHDOG 10"]
     for i in range(ne):
         lines.append("EVENTUAL %d %d" % (i, caps[i]))
     for i in range(nf):
@@ -147,7 +183,7 @@ def gen_scenario(rng, big=False):
 
 
 def gen(rng, tier):
-    n = 220 if tier == "quick" else 2500
+    n = 220 if tier == "quick" else 10000
     return [gen_scenario(rng, big=(tier != "quick" and i % 3 == 0)) for i in range(n)], {"scenarios": n}
 
 
@@ -163,7 +199,7 @@ def stage_extra(rep, sc, lib, cov, tier, seed):
     import random
     hexe = os.path.join(sc, "harness_c09")
     drv = os.path.join(vlib.BUILD, "drv_c09")
-    per = 30 if tier == "quick" else 250
+    per = 30 if tier == "quick" else 1200
     total, bad, mism = 0, [], []
     for k in TARGET_KINDS:
         rng = random.Random(seed * 7919 + k)
